@@ -24,14 +24,17 @@ LEVELS = {
         {'name': 'L1-len3-p2', 'len': 3, 'preempt': 2, 'sync_yields': 3, 'cycles': 14, 'budget_s': 150},
         {'name': 'L2-lines-p1', 'len': 0, 'preempt': 1, 'lines': 1, 'line_scripts': 1, 'sync_yields': 3, 'cycles': 12,
          'max_switches': 600, 'budget_s': 120},
+        {'name': 'L3-len4-p2', 'len': 4, 'preempt': 2, 'sync_yields': 3, 'cycles': 16, 'budget_s': 120},
+        {'name': 'L4-len2-p1-lines', 'len': 2, 'preempt': 1, 'lines': 1, 'sync_yields': 3, 'cycles': 12, 'max_switches': 600,
+         'budget_s': 60},
     ],
     'thorough': [
-        {'name': 'L1-len3-p3', 'len': 3, 'preempt': 3, 'sync_yields': 3, 'cycles': 14, 'budget_s': 1800},
-        {'name': 'L2-len4-p2', 'len': 4, 'preempt': 2, 'sync_yields': 3, 'cycles': 16, 'budget_s': 2400},
-        {'name': 'L3-lines-p2', 'len': 0, 'preempt': 2, 'lines': 1, 'line_scripts': 1, 'sync_yields': 3, 'cycles': 12,
+        {'name': 'L5-len3-p3', 'len': 3, 'preempt': 3, 'sync_yields': 3, 'cycles': 14, 'budget_s': 1800},
+        {'name': 'L6-lines-p2', 'len': 0, 'preempt': 2, 'lines': 1, 'line_scripts': 1, 'sync_yields': 3, 'cycles': 12,
          'max_switches': 600, 'budget_s': 2400},
-        {'name': 'L4-len2-p1-lines', 'len': 2, 'preempt': 1, 'lines': 1, 'sync_yields': 3, 'cycles': 12, 'max_switches': 600,
+        {'name': 'L7-len3-p1-lines', 'len': 3, 'preempt': 1, 'lines': 1, 'sync_yields': 3, 'cycles': 12, 'max_switches': 600,
          'budget_s': 1800},
+        {'name': 'L8-len5-p1', 'len': 5, 'preempt': 1, 'sync_yields': 3, 'cycles': 18, 'budget_s': 1800},
     ],
 }
 WITNESSES = ['stop_while_executing', 'paused_then_stopped', 'event_queued_while_paused', 'runner_ended_on_final',
